@@ -11,8 +11,8 @@ static Fields gen(Tape &t) {
   Fields f;
   ops_to_fields(f, g_history(t, SEG_ANY, false, 8));
   // in a quarter of the histories every call goes through a custom memory manager whose k-th request of *each* call
-  // fails once: whatever a call then still returns as a success must satisfy the invariant like any other result
-  f.seti("fault", t.chance(3, 4) ? 0 : t.range(1, 6));
+  // (parses excepted) fails once: whatever a call then still returns as a success must satisfy the invariant like any other result
+  f.seti("fault", t.chance(2, 3) ? 0 : (t.chance(1, 3) ? 1 : t.range(2, 6)));
   return f;
 }
 
@@ -72,7 +72,8 @@ template <class A> static Verdict run(const std::vector<Op> &ops, int fault, int
   if (fault > 0) w.defaultMm = &mm.mm;
   char prev = 0;
   for (auto &op : ops) {
-    if (fault > 0) { mm.reset_counts(); mm.reset_plan(); mm.fail_at = (uint64_t)fault; }
+    // the plan applies to the producing steps, not to the parses that set the scene (a failed parse ends the history early)
+    if (fault > 0) { mm.reset_counts(); mm.reset_plan(); if (op.kind != 'P') mm.fail_at = (uint64_t)fault; }
     std::string before;
     int n = w.size();
     int tgt = n ? ((op.i % n) + n) % n : 0;
